@@ -53,6 +53,17 @@ impl VxToBe for u32 { type Out = [u8; 4];
     { self.to_be_bytes() }
 }
 
+pub open spec fn be_bytes_u64(w: u64) -> Seq<u8> {
+    seq![(w >> 56) as u8, ((w >> 48) & 0xff) as u8, ((w >> 40) & 0xff) as u8, ((w >> 32) & 0xff) as u8,
+         ((w >> 24) & 0xff) as u8, ((w >> 16) & 0xff) as u8, ((w >> 8) & 0xff) as u8, (w & 0xff) as u8]
+}
+impl VxToBe for u64 { type Out = [u8; 8];
+    #[verifier::external_body]
+    fn vx_to_be_bytes(self) -> (r: [u8; 8])
+        ensures r@ == be_bytes_u64(self)
+    { self.to_be_bytes() }
+}
+
 // byteorder [K: leaf harness byteorder_rw]
 #[derive(Debug)]
 pub struct IoError;
